@@ -177,6 +177,8 @@ def run(ctx):
     except Exception as e:
         ctx.obligation('translator:trace-propagator.__call__', False, repr(e))
     W.trace_and_tie(ctx)
+    W.dft_instance(ctx)
+    W.fft_contracts(ctx)
     # B2 + oracles
     rng = ctx.rng
     seqs = []
